@@ -200,3 +200,68 @@ def h_estimator(E, shape):
         return
     E.prove(land(r >= 0.0, boot.np.isfinite(r)) if core.is_sym(r) else (r >= 0.0 and r == r and r != INF), "C06.reported_rcond_is_a_nonnegative_number")
     E.prove(common.eq_all([v for row in dense(mat) for v in row], [v for row in M for v in row]), "C17.matrix_not_modified")
+
+
+def h_history(E, shape):
+    """C10 / C17: what a linear-solver wrapper hands to the library depends on this solve's arguments
+    only -- not on earlier solves of the same object, of other objects of the class, or of other
+    systems.  Two systems, three solves: (A, b1), again on the same object (A, b2), then a new
+    object on (B, b3) without a guess; each library call is compared with its own request."""
+    LS = boot.mod("linear_solver")
+    P = boot.mod("params")
+    n = shape["n"]
+    kind = shape["kind"]
+    log = []
+    install_scipy_stubs(E, log, exact_krylov=True)
+    sym = kind == "MINRES"
+    fmt = shape.get("fmt", "csr")
+
+    def named_matrix(tag):
+        ent, vals = [], [[None] * n for _ in range(n)]
+        for i in range(n):
+            for j in range(n):
+                vals[i][j] = vals[j][i] if (sym and j < i) else E.real(f"{tag}{i}_{j}")
+                ent.append((i, j, vals[i][j]))
+        return common.make_sparse(fmt, (n, n), ent), vals
+
+    def make(mat):
+        return LS.linear_solver(mat, P.LinearSolverType[kind], symmetric=True) if sym else LS.linear_solver(mat, P.LinearSolverType[kind])
+
+    A, MA = named_matrix("A")
+    B, MB = named_matrix("B")
+    name = dict(LU="lu.solve", GMRES="gmres", MINRES="minres")[kind]
+    pairs = []
+
+    def ncalls():
+        return len([l for l in log if l[0] == name])
+
+    def do(solver, M, b, g):
+        before = ncalls()
+        solver.solve(arr(b), initial_sol=(lambda: arr(g)) if g is not None else None)
+        if ncalls() > before:  # else: early return on the guess
+            pairs.append((M, b, g, [l for l in log if l[0] == name][before]))
+
+    try:
+        s1 = make(A)
+        do(s1, MA, [E.real(f"b1_{i}") for i in range(n)], [E.real(f"g1_{i}") for i in range(n)] if kind != "LU" else None)
+        do(s1, MA, [E.real(f"b2_{i}") for i in range(n)], None)
+        s2 = make(B)
+        do(s2, MB, [E.real(f"b3_{i}") for i in range(n)], None)
+    except LS.LinearSolverError:
+        pass
+    for (M, b, g, c) in pairs:
+        if kind == "LU":
+            _, Mgot, bgot, trans, sol = c
+            x0got = None
+        else:
+            _, Mgot, bgot, x0got, sol, info, atol, maxiter = c
+        okM = True
+        for i in range(n):
+            for j in range(n):
+                okM = land(okM, Mgot[i][j] == M[i][j])
+        E.prove(okM, "C10.linear_solver_call_independent_of_history", info="matrix")
+        E.prove(common.eq_all(bgot, b), "C10.linear_solver_call_independent_of_history", info="rhs")
+        if g is None:
+            E.prove(x0got is None, "C10.linear_solver_call_independent_of_history", info="no initial guess was given")
+        else:
+            E.prove(x0got is not None and common.eq_all(x0got, g), "C10.linear_solver_call_independent_of_history", info="guess")
